@@ -20,9 +20,9 @@ import re, sys, os, json, glob
 
 ROOT = os.path.dirname(os.path.dirname(os.path.abspath(__file__)))
 REPO = os.environ.get("VERIF_REPO", "/repo")
-OUT = os.path.join(ROOT, "lean", "TcVerif", "Gen", "Consts.lean")
+OUT = os.path.join(os.environ.get("VERIF_LEAN_DIR", os.path.join(ROOT, "lean")), "TcVerif", "Gen", "Consts.lean")
 BASELINE = os.path.join(ROOT, "translate", "baseline.json")
-STATUS = os.path.join(ROOT, "work", "translator_status.json")
+STATUS = os.environ.get("VERIF_TRANSLATOR_STATUS", os.path.join(ROOT, "work", "translator_status.json"))
 
 class NotLocated(Exception):
     pass
@@ -112,6 +112,22 @@ def norm_expr(e, text=""):
     e = re.sub(r"\b" + RECEIVERS + r"\.(?=[a-z_])", "", e)
     e = re.sub(r"\.clone\(\)", "", e)
     if text:
+        # a private one-expression helper is inlined: `fn whole_seconds(d: Duration) -> i64 { d.as_secs() as i64 }`
+        # makes `whole_seconds(reset_after)` the same initialiser as `reset_after.as_secs() as i64`
+        for _ in range(3):
+            changed = False
+            for m in re.finditer(r"\b([a-z_][a-z0-9_]*)\(([^()]*)\)", e):
+                fn, arg = m.group(1), m.group(2).strip()
+                d = re.search(r"fn\s+" + fn + r"\s*\(\s*(\w+)\s*:\s*[^)]*\)\s*->\s*[\w:<>]+\s*\{\s*([^{};]+?)\s*\}", text)
+                if d and arg and "," not in arg:
+                    body = re.sub(r"\b" + d.group(1) + r"\b", arg, re.sub(r"\s+", " ", d.group(2)))
+                    e = e[:m.start()] + body + e[m.end():]
+                    changed = True
+                    break
+            if not changed:
+                break
+        e = re.sub(r"^&\s*", "", e)
+        e = re.sub(r"\b" + RECEIVERS + r"\.(?=[a-z_])", "", e)
         consts = file_consts(text)
         e = re.sub(r"\b[A-Z][A-Z0-9_]+\b", lambda m: str(consts[m.group(0)]) if m.group(0) in consts else m.group(0), e)
         if re.fullmatch(r"[a-z_]+", e):
